@@ -228,3 +228,258 @@ def run_spec_stream(chk, specs):
     outs = [impl_spec(s) for s in specs]
     dis, _ = chk.stream('pybrace-spec', lines, outs)
     return ['{:' + specs[i] + '}' for i in dis]
+
+# ------------------------------------------------------------------ the oracle: the running interpreter
+
+_MARKUP_MSG = [
+    ("Single '}' encountered", 'singleClose'), ("Single '{' encountered", 'singleOpen'), ("unexpected '{' in field name", 'openInName'),
+    ("expected '}' before end of string", 'expectedClose'), ('end of string while looking for conversion', 'endInConversion'),
+    ("expected ':' after conversion specifier", 'expectedColon'), ("unmatched '{' in format spec", 'unmatchedOpen'),
+]
+
+def _markup_kind(msg):
+    for pre, kind in _MARKUP_MSG:
+        if msg.startswith(pre):
+            return kind
+    return None
+
+_FORMATTER = string.Formatter()
+
+def oracle_parse(s):
+    """`list(string.Formatter().parse(s))`, canonically (Driver `showMarkup`)"""
+    try:
+        chunks = list(_FORMATTER.parse(s))
+    except ValueError as exc:
+        return 'err ' + (_markup_kind(str(exc)) or 'ValueError:' + str(exc)[:40])
+    except Exception as exc:
+        return 'err ' + type(exc).__name__
+    out = []
+    for lit, name, spec, conv in chunks:
+        if name is None:
+            out.append('L:' + hexchars(lit))
+        else:
+            out.append(f"L:{hexchars(lit)}|N:{hexchars(name)}|S:{hexchars(spec)}|C:{'~' if conv is None else hexchars(conv)}")
+    return 'ok ' + ';'.join(out)
+
+def oracle_parses(s):
+    try:
+        for _ in _FORMATTER.parse(s):
+            pass
+        return True
+    except ValueError:
+        return False
+
+_SPEC_MSG = [
+    ('Too many decimal digits', 'tooManyDigits'), ("Cannot specify both ',' and '_'", 'commaAndUnderscore'), ('Format specifier missing precision', 'missingPrecision'),
+    ('Invalid format specifier', 'invalidSpecifier'), ("Cannot specify ','", 'thousandsWithType'), ("Cannot specify '_'", 'thousandsWithType'),
+    ('Precision not allowed in integer', 'precisionInt'), ('Negative zero coercion (z) not allowed in integer', 'negZeroInt'),
+    ("Sign not allowed with integer format specifier 'c'", 'signWithC'), ("Alternate form (#) not allowed with integer format specifier 'c'", 'altWithC'),
+    ('Unknown format code', 'unknownCode'), ('precision too big', 'precisionTooBig'), ('Sign not allowed in string', 'signStr'),
+    ('Space not allowed in string', 'spaceStr'), ('Negative zero coercion (z) not allowed in string', 'negZeroStr'),
+    ('Alternate form (#) not allowed in string', 'altStr'), ("'=' alignment not allowed in string", 'eqAlignStr'),
+]
+
+def classify_format(exc):
+    n, msg = type(exc).__name__, str(exc)
+    if n == 'ValueError':
+        k = _markup_kind(msg)
+        if k:
+            return 'markup:' + k
+        if msg.startswith('cannot switch from manual'): return 'manualToAuto'
+        if msg.startswith('cannot switch from automatic'): return 'autoToManual'
+        if msg.startswith('Unknown conversion specifier'): return 'unknownConversion'
+        if msg.startswith('Too many decimal digits'): return 'tooManyDigits?'      # field index or specification: resolved by the caller
+        for pre, kind in _SPEC_MSG:
+            if msg.startswith(pre):
+                return 'spec:' + kind
+        return 'ValueError:' + msg[:40]
+    if n == 'IndexError': return 'indexError'
+    if n == 'KeyError': return 'keyError'
+    if n == 'OverflowError':
+        if 'not in range(0x110000)' in msg or 'too large to convert to C long' in msg: return 'spec:chrRange'
+        if 'too large to convert to float' in msg: return 'spec:intTooLarge'
+    return n + ':' + msg[:40]
+
+def oracle_format(s, pos, kw):
+    try:
+        s.format(*pos, **kw)
+    except Exception as exc:
+        return 'err ' + classify_format(exc)
+    return 'ok'
+
+def val_token(v):
+    if type(v) is int: return 'i%d' % v
+    if type(v) is float: return 'f'
+    return 's'
+
+def args_token(pos, kw):
+    return 'P:' + ','.join(val_token(v) for v in pos) + '|K:' + ';'.join(hexchars(k) + '=' + val_token(v) for k, v in kw.items())
+
+# --- an independent reading of a format string, from the library reference ("Format String Syntax"): used to choose arguments,
+#     to decide flatness and to keep the oracle from allocating
+
+def ref_fields(s):
+    """[(field_name, conversion, format_spec)] by brace counting (no regex); None if the braces do not pair up"""
+    out, i, n = [], 0, len(s)
+    while i < n:
+        c = s[i]
+        if c == '{':
+            if i + 1 < n and s[i + 1] == '{':
+                i += 2; continue
+            j, depth, inbr, name_done = i + 1, 1, False, False
+            start = j
+            # the field name ends at the first ! or : outside brackets
+            while j < n:
+                d = s[j]
+                if not name_done:
+                    if inbr:
+                        if d == ']': inbr = False
+                    elif d == '[': inbr = True
+                    elif d == '{': return None
+                    elif d == '}': break
+                    elif d in '!:': name_done = True; name_end = j; continue
+                else:
+                    break
+                j += 1
+            if j >= n:
+                return None
+            if not name_done:
+                out.append((s[start:j], None, '')); i = j + 1; continue
+            name = s[start:name_end]
+            j = name_end
+            conv = None
+            if s[j] == '!':
+                if j + 1 >= n: return None
+                conv = s[j + 1]; j += 2
+                if j >= n: return None
+                if s[j] == '}':
+                    out.append((name, conv, '')); i = j + 1; continue
+                if s[j] != ':': return None
+            j += 1
+            spec_start, depth = j, 1
+            while j < n:
+                if s[j] == '{': depth += 1
+                elif s[j] == '}':
+                    depth -= 1
+                    if depth == 0: break
+                j += 1
+            if j >= n:
+                return None
+            out.append((name, conv, s[spec_start:j])); i = j + 1
+        elif c == '}':
+            if i + 1 < n and s[i + 1] == '}':
+                i += 2; continue
+            return None
+        else:
+            i += 1
+    return out
+
+def ref_flat(s):
+    """no attribute/index part in any field name, no replacement field inside a format specification"""
+    fs = ref_fields(s)
+    return fs is not None and all('.' not in nm and '[' not in nm and '{' not in sp for nm, cv, sp in fs)
+
+CAP = 10 ** 4
+_NUM = re.compile(r'[0-9]+')      # ASCII runs; other decimal digits are handled through int()
+
+def oracle_safe(s):
+    """may `s.format(…)` be evaluated without allocating much?  every decimal run (any script) that could be a width or a precision
+    must be small or overflow CPython's parser (> 2^63-1)"""
+    run = ''
+    for c in s + ' ':
+        if c.isdecimal():
+            run += c
+        else:
+            if run and len(run) < 4000:
+                v = int(run)
+                if CAP < v <= 2 ** 63 - 1:
+                    return False
+            run = ''
+    return True
+
+VALS = {'int': (65, 0, 1114111, -3, 2 ** 70), 'float': (1.5, -0.0, 1e300, float('inf')), 'str': ('a', '', 'é' * 3)}
+ODD_INTS = (-1, 1114112, 2 ** 1024 - 2 ** 970, 2 ** 1024 - 2 ** 970 - 1, -(2 ** 1024))
+
+def gen_args(rng, s):
+    """(pos, kw) that mostly fit the string (by the independent reading), then perturbed"""
+    fs = ref_fields(s) or []
+    npos, names = 0, []
+    auto = 0
+    for nm, cv, sp in fs:
+        first = re.split(r'[.\[]', nm, maxsplit=1)[0]
+        if first == '':
+            auto += 1
+        elif first.isdecimal():
+            try:
+                npos = max(npos, int(first) + 1)
+            except ValueError:
+                pass
+        else:
+            names.append(first)
+    npos = min(max(npos, auto), 40)
+    def val():
+        r = rng.random()
+        if r < 0.4: return rng.choice(VALS['int'])
+        if r < 0.46: return rng.choice(ODD_INTS)
+        if r < 0.73: return rng.choice(VALS['float'])
+        return rng.choice(VALS['str'])
+    pos = [val() for _ in range(npos)]
+    kw = {k: val() for k in names}
+    r = rng.random()
+    if r < 0.06 and pos:
+        pos.pop()
+    elif r < 0.1:
+        pos.append(val())
+    elif r < 0.14 and kw:
+        kw.pop(rng.choice(sorted(kw)))
+    elif r < 0.17:
+        kw['extra'] = 1
+    return pos, kw
+
+def run_cpyparse_stream(chk, strings):
+    strings = [s for s in strings if representable(s)]
+    lines = ['pybrace cpy-parse ' + hexchars(s) for s in strings]
+    outs = [oracle_parse(s) for s in strings]
+    dis, _ = chk.stream('pybrace-cpyparse', lines, outs)
+    return [strings[i] for i in dis]
+
+def run_cpyformat_stream(chk, strings, per_string=2):
+    """`Spec.StrFormat.format` against the running interpreter's `str.format` on (format, arguments) pairs; the reference
+    answers `outside` for compound / nested fields: those pairs are counted and left out"""
+    rng = chk.rng
+    lines, outs, pairs = [], [], []
+    skipped = 0
+    for s in strings:
+        if not representable(s):
+            continue
+        if not oracle_safe(s):
+            skipped += 1
+            continue
+        for _ in range(per_string):
+            pos, kw = gen_args(rng, s)
+            if not all(representable(k) and k.isidentifier() or True for k in kw):
+                continue
+            lines.append('pybrace cpy-format ' + hexchars(s) + ' ' + args_token(pos, kw))
+            outs.append(oracle_format(s, pos, kw))
+            pairs.append((s, pos, kw))
+    model = common.run_driver(lines)
+    st = chk.coverage['streams'].setdefault('pybrace-cpyformat', {'cases': 0, 'disagreements': 0, 'outcomes': {}, 'outside_reference': 0, 'skipped_for_allocation': 0})
+    st['skipped_for_allocation'] += skipped
+    dis = []
+    for i, (a, b) in enumerate(zip(outs, model)):
+        if b == 'err outside':
+            st['outside_reference'] += 1
+            continue
+        if a == 'err tooManyDigits?':
+            a = b if b in ('err tooManyDigits', 'err spec:tooManyDigits') else a
+        st['cases'] += 1
+        key = a
+        st['outcomes'][key] = st['outcomes'].get(key, 0) + 1
+        if a != b:
+            dis.append(i)
+    st['disagreements'] += len(dis)
+    chk.evaluations += len(lines)
+    for i in dis[:5]:
+        chk.broken.append({'kind': 'correspondence', 'stream': 'pybrace-cpyformat', 'line': lines[i], 'impl': outs[i], 'model': model[i],
+                           'format': pairs[i][0], 'args': repr(pairs[i][1:])[:200]})
+    return [pairs[i] for i in dis]
